@@ -64,6 +64,24 @@ def callgraph(crate, roots_, cut):
                 callees.setdefault(c, set()).add(fn)
                 if c in crate.bodies and c not in seen:
                     stack.append(c)
+        # a `for` loop (and the iterator adaptors) drive the local `Iterator::next` of the iterated type although no
+        # call of it is written: enter the `next` of every local iterator type that this body names
+        import re as _re
+        for n in common.hir_walk(b["hir"]):
+            tys = []
+            if n.get("k") == "For":
+                tys.append((n.get("iter") or {}).get("ty") or "")
+            elif n.get("k") == "MethodCall":
+                tys.append((n.get("recv") or {}).get("ty") or "")
+                tys.append(n.get("ty") or "")
+            for ty in tys:
+                base = _re.sub(r"<.*$", "", ty.lstrip("&").replace("mut ", "").strip())
+                if not base or "::" in base and base.split("::")[0] in ("std", "core", "alloc"):
+                    continue
+                for k in crate.bodies:
+                    if k.endswith(" as std::iter::Iterator>::next") and k.startswith("<" + base) and k not in seen:
+                        callees.setdefault(k, set()).add(fn)
+                        stack.append(k)
         # generic trait calls on local impls (e.g. PublicKeyData::der_bytes): follow every local impl of the method
         for callee, n, ps in common.calls_in(b):
             base = (n.get("callee") or "")
